@@ -175,7 +175,7 @@ def group_model(which, fam):
             m = gen.make_mesh("twdi", 2, 3, "left", fam, span=10.0, chord=1.6)
             s_ = builders.struct_surface("wing", m, True, "wingbox", struct_weight_relief=True, distributed_fuel_weight=True, with_viscous=True, n_point_masses=1, twist_cp=np.array([2.0, 3.0, 1.0]), spar_thickness_cp=np.array([0.004, 0.006, 0.008]), skin_thickness_cp=np.array([0.008, 0.012, 0.016]))
             p = builders.build_aerostruct([s_], dict(Mach_number=0.5, W0=2.0e3, v=100.0, rho=0.9, alpha=4.0, speed_of_sound=200.0, R=2.0e6, load_factor=1.3), mode=mode, pm=dict(point_masses=[600.0], engine_thrusts=[5.0e3], point_mass_locations=[[1.1, -2.3, -0.35]]))
-            builders.tighten(p)
+            builders.tighten(p, nl="default", lin="default")  # the library's own solver objects, tolerance options only
             return p
 
         pts = [
@@ -196,7 +196,7 @@ def group_model(which, fam):
                 kw["skin_thickness_cp"] = np.array([0.008, 0.012, 0.016])
             s = builders.struct_surface("wing", m, True, model, **kw)
             p = builders.build_aerostruct([s], dict(Mach_number=0.5, W0=2.0e3, v=100.0, rho=0.9, alpha=4.0, speed_of_sound=200.0, R=2.0e6, load_factor=1.3), mode=mode)
-            builders.tighten(p)
+            builders.tighten(p, nl="default", lin="default")  # the library's own solver objects, tolerance options only
             return p
 
         tk = "wing.thickness_cp" if model == "tube" else "wing.spar_thickness_cp"
